@@ -49,6 +49,18 @@ func StartKeygenCommon(taproot bool, group curve.Curve, participants []party.ID,
 			verificationSharesCopy[k] = v
 		}
 
+		if privateShare != nil && publicKey != nil {
+			// a refresh is run by exactly the parties that hold shares of the key
+			if len(participants) != len(verificationShares) {
+				return nil, fmt.Errorf("keygen.StartKeygen: refresh needs all %d shareholders as participants", len(verificationShares))
+			}
+			for _, id := range participants {
+				if _, ok := verificationShares[id]; !ok {
+					return nil, fmt.Errorf("keygen.StartKeygen: participant %s holds no share of the key", id)
+				}
+			}
+		}
+
 		refresh := true
 		if privateShare == nil || publicKey == nil {
 			refresh = false
